@@ -1174,6 +1174,9 @@ impl World {
                 let end = find(trimmed, b" -eq 1 ]").unwrap();
                 let v = String::from_utf8_lossy(&trimmed[2..end]).trim().to_string();
                 self.procs[pi].persist = v.parse::<u8>().ok();
+            } else if self.procs[pi].commands_started == 0 && trimmed.starts_with(b"trap ") && trimmed.ends_with(b" EXIT") && self.procs[pi].persist.is_none() {
+                // the trap set without a condition: this shell persists its state
+                self.procs[pi].persist = Some(1);
             }
             return;
         }
